@@ -38,3 +38,5 @@ pub mod c01;
 pub mod c13;
 #[cfg(feature = "c08")]
 pub mod c08;
+#[cfg(feature = "c15")]
+pub mod c15;
